@@ -41,6 +41,10 @@
 #[path = "gen/e_lr_z_parser.rs"] mod e_lr_z_parser;
 #[path = "gen/n_ll_grammar_trait.rs"] mod n_ll_grammar_trait;
 #[path = "gen/n_ll_parser.rs"] mod n_ll_parser;
+#[path = "gen/ll_tn_grammar_trait.rs"] mod ll_tn_grammar_trait;
+#[path = "gen/ll_tn_parser.rs"] mod ll_tn_parser;
+#[path = "gen/k_ll_grammar_trait.rs"] mod k_ll_grammar_trait;
+#[path = "gen/k_ll_parser.rs"] mod k_ll_parser;
 
 use parol_runtime::{ParolError, Token, parser::parse_tree_type::TreeConstruct};
 
@@ -80,6 +84,7 @@ user_grammar!(lr_grammar, LrGrammar, LrGrammarTrait, lr_grammar_trait);
 user_grammar!(ll_t_grammar, LlTGrammar, LlTGrammarTrait, ll_t_grammar_trait);
 user_grammar!(lr_t_grammar, LrTGrammar, LrTGrammarTrait, lr_t_grammar_trait);
 user_grammar!(ll_n_grammar, LlNGrammar, LlNGrammarTrait, ll_n_grammar_trait);
+user_grammar!(ll_tn_grammar, LlTnGrammar, LlTnGrammarTrait, ll_tn_grammar_trait);
 
 // second toy grammar (nested expressions): E: T { Plus T }; T: Num | Open E Close;
 macro_rules! user_grammar2 {
@@ -191,8 +196,8 @@ fn line_col(s: &str, off: usize) -> (u32, u32) {
 }
 
 struct Run { ok: bool, leaves: Vec<Leaf>, events: Vec<Ev>, panicked: bool, depth_err: bool, shape: Vec<String> }
-/// variant: 0 = LL(k), 1 = LALR(1), 2 = LL(k) with trim_parse_tree, 3 = LALR(1) with trim_parse_tree, 4 = LL(k) with recovery disabled
-const VARIANTS: [&str; 5] = ["LL(k)", "LALR(1)", "LL(k) trimmed", "LALR(1) trimmed", "LL(k) recovery disabled"];
+/// variant: 0 = LL(k), 1 = LALR(1), 2 = LL(k) with trim_parse_tree, 3 = LALR(1) with trim_parse_tree, 4 = LL(k) with recovery disabled, 5 = LL(k) trimmed with recovery disabled
+const VARIANTS: [&str; 6] = ["LL(k)", "LALR(1)", "LL(k) trimmed", "LALR(1) trimmed", "LL(k) recovery disabled", "LL(k) trimmed, recovery disabled"];
 fn run(v: usize, input: &str) -> Run {
     let inp = input.to_string();
     let r = std::panic::catch_unwind(move || {
@@ -202,13 +207,14 @@ fn run(v: usize, input: &str) -> Run {
             2 => { let mut g = ll_t_grammar::LlTGrammar::default(); let r = ll_t_parser::parse_into(&inp, &mut col, "x", &mut g); (r.is_ok(), col.leaves, g.events, col.shape) }
             3 => { let mut g = lr_t_grammar::LrTGrammar::default(); let r = lr_t_parser::parse_into(&inp, &mut col, "x", &mut g); (r.is_ok(), col.leaves, g.events, col.shape) }
             4 => { let mut g = ll_n_grammar::LlNGrammar::default(); let r = ll_n_parser::parse_into(&inp, &mut col, "x", &mut g); (r.is_ok(), col.leaves, g.events, col.shape) }
+            5 => { let mut g = ll_tn_grammar::LlTnGrammar::default(); let r = ll_tn_parser::parse_into(&inp, &mut col, "x", &mut g); (r.is_ok(), col.leaves, g.events, col.shape) }
             _ => { let mut g = ll_grammar::LlGrammar::default(); let r = ll_parser::parse_into(&inp, &mut col, "x", &mut g); (r.is_ok(), col.leaves, g.events, col.shape) }
         }
     });
     match r { Ok((ok, leaves, events, shape)) => Run { ok, leaves, events, panicked: false, depth_err: false, shape }, Err(_) => Run { ok: false, leaves: vec![], events: vec![], panicked: true, depth_err: false, shape: vec![] } }
 }
 
-const CLAUSES: [(&str, &str); 14] = [
+const CLAUSES: [(&str, &str); 15] = [
     ("C01 C02 C03 C08 C13 C14 C16 C17 C19 C20", "parse does not panic"),
     ("C01 C03 C08 C13 C14 C16 C17 C20", "acceptance: success iff the input is a sentence of the toy grammar (independent reference recognizer; skipped tokens do not matter)"),
     ("C03 C13 C14 C16", "tree leaves are contiguous, in order, start at 0 and end at the input length"),
@@ -216,13 +222,14 @@ const CLAUSES: [(&str, &str); 14] = [
     ("C13 C14 C16", "leaf token types and ranges equal the reference tokenization (significant, skipped, comments, unmatched gaps)"),
     ("C14", "line/column positions (start and end) of scanner-produced leaves match the text"),
     ("C14", "line/column positions (start and end) of unmatched-gap leaves match the text"),
-    ("C08 C17 C20", "semantic actions see exactly the significant tokens, in order (skipped and state-skipped tokens never influence the derivation)"),
+    ("C08 C13 C17 C20", "semantic actions see exactly the significant tokens, in order (skipped and state-skipped tokens never influence the derivation)"),
     ("C17", "every comment is passed to on_comment exactly once, in input order"),
     ("C19", "parse returns: no single parse runs longer than the watchdog limit (30 s)"),
     ("C19 C20", "depth limit: a limit that is not reached changes nothing; an exceeded limit yields the MaxParsingDepthExceeded error value (or the unlimited outcome), never a panic or another result"),
     ("C02 C03", "every production application triggers exactly one semantic action, in post-order of the derivation tree (children before their production, left to right)"),
     ("C02", "the LL(k) parse tree is the derivation tree of the transformed grammar: every production application is one inner node whose children are that production's right-hand side in order (empty productions included)"),
     ("C16", "with automatic newline handling switched off and no newline terminal, a line break is unmatched input: in a state without %allow_unmatched the parse must fail"),
+    ("C01 C13", "fourth grammar (lookaheads written in another literal kind than their terminal; two groups under one left-hand side): success iff the reference tokenization has no error token and is a sequence of pairs (Int | Dot)(If | Id); the tree leaves equal the reference tokenization (longest match among the terminals whose lookahead condition holds, first declared wins ties)"),
 ];
 /// independent recognizer of Start: { Item }; Item: a | b | # | a ; | q r s t | q u
 fn is_item_list(t: &[u16]) -> bool {
@@ -247,7 +254,7 @@ fn check(v: usize, input: &str) -> Option<usize> {
     let expect_ok = !want.iter().any(|t| t.ty == ERR) && is_item_list(&sigs);
     if r.ok != expect_ok { return Some(1); }
     if !r.ok { return None; }
-    let trimmed = v == 2 || v == 3;
+    let trimmed = v == 2 || v == 3 || v == 5;
     if trimmed {
         // no tree is built: only the action and comment clauses apply (and nothing may reach the tree builder)
         if !r.leaves.is_empty() { return Some(4); }
@@ -314,6 +321,67 @@ fn check3(input: &str) -> Option<usize> {
         n_ll_parser::parse_into(&inp, &mut col, "x", &mut g).is_ok()
     });
     match r { Err(_) => Some(0), Ok(ok) => if ok != g3_accepts(input) { Some(13) } else { None } }
+}
+mod k_ll_grammar {
+    use crate::k_ll_grammar_trait::KLlGrammarTrait;
+    #[derive(Default)]
+    pub struct KLlGrammar<'t> { _p: std::marker::PhantomData<&'t ()> }
+    impl<'t> KLlGrammarTrait<'t> for KLlGrammar<'t> {}
+}
+// ================= fourth toy grammar: L: { I }; I: (Int | Dot) (If | Id); Int: /[0-9]+/ ?! '.'; Dot: '.'; If: 'if' ?! /[a-z]/; Id: /[a-z]+/ =================
+const K_INT: u16 = 5; const K_DOT: u16 = 6; const K_IF: u16 = 7; const K_ID: u16 = 8; const K_ERR: u16 = 9;
+const PIECES4: [&str; 8] = ["1", ".", "if", "x", "i", " ", "?", "\n"];
+/// reference tokenizer written from the documented rules: at every position the longest match among the terminals whose
+/// lookahead condition holds at that length; on equal length the terminal declared first; the catch-all error token last
+fn reference_tokens4(s: &str) -> Vec<RTok> {
+    let b = s.as_bytes();
+    let mut out: Vec<RTok> = vec![];
+    let mut i = 0;
+    while i < b.len() {
+        let c = b[i];
+        if c == b'\n' { out.push(RTok { ty: NL, start: i, end: i + 1, skip: true }); i += 1; continue; }
+        if c == b' ' || c == b'\t' { let mut j = i; while j < b.len() && (b[j] == b' ' || b[j] == b'\t') { j += 1; } out.push(RTok { ty: WS, start: i, end: j, skip: true }); i = j; continue; }
+        // candidates (type, length) in declaration order
+        let mut cands: Vec<(u16, usize)> = vec![];
+        let mut d = 0; while i + d < b.len() && b[i + d].is_ascii_digit() { d += 1; }
+        if d > 0 {
+            // Int of length l is admissible iff the char after it is not `.`; inside the run the next char is a digit
+            let full_ok = !(i + d < b.len() && b[i + d] == b'.');
+            if full_ok { cands.push((K_INT, d)); } else if d > 1 { cands.push((K_INT, d - 1)); }
+        }
+        if c == b'.' { cands.push((K_DOT, 1)); }
+        if s[i..].starts_with("if") && !(i + 2 < b.len() && b[i + 2].is_ascii_lowercase()) { cands.push((K_IF, 2)); }
+        let mut l = 0; while i + l < b.len() && b[i + l].is_ascii_lowercase() { l += 1; }
+        if l > 0 { cands.push((K_ID, l)); }
+        let clen = s[i..].chars().next().unwrap().len_utf8();
+        cands.push((K_ERR, clen));
+        let mut best = cands[0];
+        for c in &cands[1..] { if c.1 > best.1 { best = *c; } }
+        out.push(RTok { ty: best.0, start: i, end: i + best.1, skip: false });
+        i += best.1;
+    }
+    out
+}
+/// clause 14 only (and "does not panic")
+fn check4(input: &str) -> Option<usize> {
+    let want = reference_tokens4(input);
+    let inp = input.to_string();
+    let r = std::panic::catch_unwind(move || {
+        let mut col = Collector::default();
+        let mut g = k_ll_grammar::KLlGrammar::default();
+        let ok = k_ll_parser::parse_into(&inp, &mut col, "x", &mut g).is_ok();
+        (ok, col.leaves)
+    });
+    let (ok, leaves) = match r { Err(_) => return Some(0), Ok(x) => x };
+    let sig: Vec<u16> = want.iter().filter(|t| !t.skip).map(|t| t.ty).collect();
+    let sentence = !sig.contains(&K_ERR) && sig.len() % 2 == 0
+        && sig.chunks(2).all(|p| (p[0] == K_INT || p[0] == K_DOT) && (p[1] == K_IF || p[1] == K_ID));
+    if ok != sentence { return Some(14); }
+    if ok {
+        if leaves.len() != want.len() { return Some(14); }
+        for (l, w) in leaves.iter().zip(&want) { if l.ty != w.ty || l.start != w.start || l.end != w.end { return Some(14); } }
+    }
+    None
 }
 // ================= second toy grammar: nested expressions (LL(1) / LALR(1), full tree and trimmed) =================
 const G2_VARIANTS: [&str; 12] = ["expr LL(k)", "expr LALR(1)", "expr LL(k) trimmed", "expr LALR(1) trimmed", "expr LL(k) depth limit 1000", "expr LALR(1) depth limit 1000", "expr LL(k) depth limit 3", "expr LALR(1) depth limit 4", "expr LL(k) depth limit 3 trimmed", "expr LALR(1) depth limit 4 trimmed", "expr LL(k) depth limit 0", "expr LALR(1) depth limit 0"];
@@ -565,6 +633,18 @@ fn main() {
                 if p.len() < maxlen + 1 { for i in 0..PIECES3.len() { let mut q = p.clone(); q.push(i); stack.push(q); } }
             }
         }
+        // fourth grammar (C01, C13): inputs of up to maxlen + 1 pieces
+        if prop == "C01" || prop == "C13" || prop == "all" {
+            let mut stack: Vec<Vec<usize>> = vec![vec![]];
+            while let Some(p) = stack.pop() {
+                let input: String = p.iter().map(|i| PIECES4[*i]).collect();
+                cases += 1;
+                PROGRESS.fetch_add(1, std::sync::atomic::Ordering::Relaxed);
+                if let Ok(mut c) = CURRENT.lock() { *c = format!("{{\"g\":4,\"v\":0,\"chars\":[{}]}}", esc(&input)); }
+                if let Some(ci) = check4(&input) { if first[ci].is_none() { first[ci] = Some(format!("{{\"g\":4,\"v\":0,\"chars\":[{}]}}", esc(&input))); } }
+                if p.len() < maxlen + 1 { for i in 0..PIECES4.len() { let mut q = p.clone(); q.push(i); stack.push(q); } }
+            }
+        }
         let mut bad = false;
         for (ci, (p, c)) in CLAUSES.iter().enumerate() {
             if !(prop == "all" || p.split(' ').any(|x| x == prop)) { continue; }
@@ -591,6 +671,10 @@ fn main() {
             let input: String = cs.split(|c: char| !c.is_ascii_digit()).filter(|x| !x.is_empty()).map(|x| char::from_u32(x.parse().unwrap()).unwrap()).collect();
             println!("input {:?} with the LL(k) parser of grammar 3 (%auto_newline_off)", input);
             match check3(&input) { Some(ci) => { println!("REPRODUCED on the real crates: violated `{}`", CLAUSES[ci].1); std::process::exit(1) } None => { println!("the recorded input satisfies all clauses on the current tree"); return; } }
+        }
+        if s.contains("\"g\":4") {
+            println!("input {:?} with the LL(k) parser of grammar 4 (mixed-kind lookaheads, two groups)", input);
+            match check4(&input) { Some(ci) => { println!("REPRODUCED on the real crates: violated `{}`", CLAUSES[ci].1); std::process::exit(1) } None => { println!("the recorded input satisfies all clauses on the current tree"); return; } }
         }
         let g2 = s.contains("\"g\":2");
         println!("input {:?} with the {} parser", input, if g2 { G2_VARIANTS[v] } else { VARIANTS[v] });
